@@ -361,6 +361,9 @@ def load_patches(
     if patch_centers is not None:
         if isinstance(patch_centers, Catalog):
             patch_centers = patch_centers.get_centers()
+        # patch i must be paired with center i, which requires data in every patch
+        if patch_ids != list(range(len(patch_centers))):
+            raise ValueError("not every patch center has data assigned to it")
         patch_arg_iter = zip(patch_paths, patch_centers)
 
     else:
